@@ -23,7 +23,8 @@ EXTENDS Naturals, Sequences, FiniteSets, TLC, Json, IOUtils, SequencesExt
 CONSTANTS Logs,         \* model log records (C19)
           RecordHist,   \* record environment decisions in hist
           MaxInt,       \* maximum number of interrupts (0..2)
-          AllowDie      \* worker processes may die
+          AllowDie,     \* worker processes may die
+          Grow          \* also model task naming and progress bars (G01, G02); FALSE keeps those variables constant
 
 Cfgs == JsonDeserialize(IOEnv.LV_CFGS)
 
@@ -63,14 +64,24 @@ VARIABLES
   subCount, viaCache, inrun, runCount, loadCount, fin, done, died, captured, dig, reads,
   intCount, outKeys, outVals,
   lg,          \* log records: [q |-> log queue, del |-> delivered to the caller's handlers, emit |-> emitted] (sequences of task ids)
-  hist
+  hist,
+  \* ---- naming and progress (TaskCoordinator.run; only when Grow)
+  tdigits,     \* task_type_max_digits
+  tcount,      \* task_type_to_task_count
+  tname,       \* tname[t] = the number in the task_name t was submitted with, 0 = not submitted
+  pb,          \* pbars: pb[y] = [made, total, n, closed]
+  subSeq       \* submissions in order
 
 vars == <<ci, cfg, pc, mode, pend, ddeps, pdeps, pdependents, active, ready, cur, removable, exitk,
           rmap, ftt, subq, uc, epend, running, fut, rq, deadS, batch,
           wst, wres, view, cached, store,
           subCount, viaCache, inrun, runCount, loadCount, fin, done, died, captured, dig, reads,
-          intCount, outKeys, outVals, lg, hist>>
+          intCount, outKeys, outVals, lg, hist, tdigits, tcount, tname, pb, subSeq>>
 
+gvars == <<tdigits, tcount, tname, pb, subSeq>>
+CeilLog10(c) == IF c <= 1 THEN 0 ELSE IF c <= 10 THEN 1 ELSE IF c <= 100 THEN 2 ELSE 3      \* math.ceil(math.log10(c)), c >= 1
+RECURSIVE ZFillL(_, _)
+ZFillL(str, w) == IF Len(str) >= w THEN str ELSE ZFillL("0" \o str, w)                   \* str.zfill
 -----------------------------------------------------------------------------
 Tasks == 1..cfg.n
 Serial == cfg.backend = "serial"
@@ -133,6 +144,9 @@ Init ==
   /\ intCount = 0 /\ outKeys = <<>> /\ outVals = <<>>
   /\ hist = <<>>
   /\ lg = [q |-> <<>>, del |-> <<>>, emit |-> <<>>]
+  /\ tdigits = [y \in DOMAIN cfg.maxpar |-> 0] /\ tcount = [y \in DOMAIN cfg.maxpar |-> 0]
+  /\ tname = [t \in Tasks |-> 0] /\ subSeq = <<>>
+  /\ pb = [y \in 0..Len(cfg.maxpar) |-> [made |-> FALSE, total |-> 0, n |-> 0, closed |-> FALSE]]
 
 (* value stored before the call for t \in cached0: computed under epoch 0 *)
 RECURSIVE ValE(_, _)
@@ -150,6 +164,14 @@ Plan ==                                               \* TaskState.__init__ (bef
        /\ ddeps' = dd
        /\ pdeps' = dd
        /\ pdependents' = [d \in Tasks |-> {t \in Tasks : d \in dd[t]}]
+       \* Counter(type(task) for task in pending_tasks); task_type_max_digits; one pbar per counted type
+       /\ IF Grow
+          THEN LET cnt == [y \in DOMAIN cfg.maxpar |-> Cardinality({t \in Range(p) : cfg.typ[t] = y})] IN
+               /\ tdigits' = [y \in DOMAIN cfg.maxpar |-> CeilLog10(cnt[y])]
+               /\ pb' = [y \in 0..Len(cfg.maxpar) |->
+                           IF y > 0 /\ cnt[y] > 0 THEN [made |-> TRUE, total |-> cnt[y], n |-> 0, closed |-> FALSE] ELSE pb[y]]
+          ELSE UNCHANGED <<tdigits, pb>>
+  /\ UNCHANGED <<tcount, tname, subSeq>>
   /\ pc' = "loop"
   /\ UNCHANGED <<ci, cfg, mode, active, ready, cur, removable, exitk, rmap, ftt, subq, uc, epend, running, fut,
                  rq, deadS, batch, wst, wres, view, cached, store, subCount, viaCache, inrun, runCount,
@@ -166,6 +188,7 @@ LoopTop ==                                            \* while (pending_tasks or
                  epend, running, fut, rq, deadS, batch, wst, wres, view, cached, store, subCount, viaCache,
                  inrun, runCount, loadCount, fin, done, died, captured, dig, reads, intCount, outKeys,
                  outVals, hist, lg>>
+  /\ UNCHANGED gvars
 
 (* ProcessExecutor._start_processes applied to a pending queue ep and a running set run *)
 StartK(ep, run) == Min2(IF MaxW > Cardinality(run) THEN MaxW - Cardinality(run) ELSE 0, Len(ep))
@@ -178,9 +201,14 @@ Submit ==                                             \* for task in ready_tasks
   /\ IF ready = <<>>
      THEN /\ pc' = "wait_sample"
           /\ UNCHANGED <<ready, pend, active, subq, ftt, uc, epend, running, fut, wst, view, inrun, runCount,
-                         loadCount, reads, subCount, viaCache>>
+                         loadCount, reads, subCount, viaCache, tcount, tname, subSeq>>
      ELSE LET t == Head(ready)  u == UseCacheNow(t) IN
           /\ ready' = Tail(ready)
+          \* task_type_to_task_count[type(task)] += 1; task_name = f'{type.__name__}[{count zero-filled}]'
+          /\ IF Grow THEN /\ tcount' = [tcount EXCEPT ![cfg.typ[t]] = @ + 1]
+                          /\ tname' = [tname EXCEPT ![t] = tcount[cfg.typ[t]] + 1]
+                          /\ subSeq' = Append(subSeq, t)
+             ELSE UNCHANGED <<tcount, tname, subSeq>>
           /\ pend' = RemoveSeq(pend, t)
           /\ active' = active \cup {t}
           /\ uc' = [uc EXCEPT ![t] = u]
@@ -210,6 +238,7 @@ Submit ==                                             \* for task in ready_tasks
                   /\ UNCHANGED subq
   /\ UNCHANGED <<ci, cfg, mode, ddeps, pdeps, pdependents, cur, removable, exitk, rmap, rq, deadS, batch, wres,
                  cached, store, fin, done, died, captured, dig, intCount, outKeys, outVals, hist, lg>>
+  /\ UNCHANGED <<tdigits, pb>>
 
 (* where the coordinator goes when a wait()'s batch has been processed *)
 AfterWait == IF mode = "normal" THEN "loop" ELSE IF mode = "drain" THEN "drain_check" ELSE "closing"
@@ -231,6 +260,7 @@ WaitSample ==             \* _consume_log_queue; liveness sample at the start of
   /\ UNCHANGED <<ci, cfg, mode, pend, ddeps, pdeps, pdependents, active, ready, cur, removable, exitk, rmap, ftt,
                  subq, uc, epend, running, fut, rq, batch, wst, wres, view, cached, store, subCount, viaCache,
                  inrun, runCount, loadCount, fin, done, died, captured, dig, reads, intCount, outKeys, outVals>>
+  /\ UNCHANGED gvars
 
 WaitConsume ==            \* the consumer thread: take everything that is in the queue now (maybe nothing)
   /\ pc = "wait_consume"
@@ -243,6 +273,7 @@ WaitConsume ==            \* the consumer thread: take everything that is in the
   /\ UNCHANGED <<ci, cfg, mode, pend, ddeps, pdeps, pdependents, active, ready, cur, removable, exitk, rmap, ftt,
                  subq, uc, epend, deadS, batch, wst, wres, view, cached, store, subCount, viaCache, inrun,
                  runCount, loadCount, fin, done, died, captured, dig, reads, intCount, outKeys, outVals, lg>>
+  /\ UNCHANGED gvars
 
 WaitDead ==               \* fail the futures of dead processes; _start_processes; split_done_futures
   /\ pc = "wait_dead"
@@ -267,6 +298,7 @@ WaitDead ==               \* fail the futures of dead processes; _start_processe
   /\ UNCHANGED <<ci, cfg, mode, pend, ddeps, pdeps, pdependents, active, ready, cur, removable, exitk, rmap, ftt,
                  subq, uc, rq, wres, cached, store, subCount, viaCache, fin, done, died, captured, dig,
                  intCount, outKeys, outVals, lg, hist>>
+  /\ UNCHANGED gvars
 
 Iter ==                   \* for future in done: prune it, skip cancelled, publish the result, yield
   /\ pc = "iter"
@@ -286,6 +318,7 @@ Iter ==                   \* for future in done: prune it, skip cancelled, publi
   /\ UNCHANGED <<ci, cfg, mode, pend, ddeps, pdeps, pdependents, active, ready, removable, subq, uc, epend,
                  running, fut, rq, deadS, wst, wres, view, cached, store, subCount, viaCache, inrun, runCount,
                  loadCount, fin, done, died, captured, dig, reads, intCount, outKeys, outVals, hist, lg>>
+  /\ UNCHANGED gvars
 
 (* ---- SerialRunner.wait ---- *)
 
@@ -311,6 +344,7 @@ SerPop ==                 \* popleft; the caller is now busy executing this one 
   /\ UNCHANGED <<ci, cfg, mode, pend, ddeps, pdeps, pdependents, active, ready, removable, rmap, ftt, uc, epend,
                  fut, rq, deadS, batch, wres, cached, store, subCount, viaCache, fin, done, died, captured, dig,
                  intCount, outKeys, outVals, lg, hist, lg>>
+  /\ UNCHANGED gvars
 
 SerRun ==                 \* run_or_load_task inline; results_map[task] = result; yield
   /\ pc = "ser_run"
@@ -329,6 +363,7 @@ SerRun ==                 \* run_or_load_task inline; results_map[task] = result
   /\ UNCHANGED <<ci, cfg, mode, pend, ddeps, pdeps, pdependents, active, ready, cur, removable, exitk, ftt, subq,
                  uc, epend, rq, deadS, batch, wres, view, subCount, viaCache, runCount, loadCount, done, died,
                  captured, reads, intCount, outKeys, outVals, hist>>
+  /\ UNCHANGED gvars
 
 (* ---- body of process_completed_tasks ---- *)
 
@@ -343,9 +378,11 @@ Body ==                   \* capture; complete_task; handle_failure
        /\ pdeps' = [x \in Tasks |-> IF x \in pdependents[t] THEN pdeps[x] \ {t} ELSE pdeps[x]]
        /\ pdependents' = pdts
        /\ removable' = {d \in ddeps[t] : pdts[d] = {}} \cup (IF pdts[t] = {} THEN {t} ELSE {})
+       /\ pb' = IF Grow /\ ok THEN [pb EXCEPT ![cfg.typ[t]] = [@ EXCEPT !.n = @ + 1]] ELSE pb      \* pbars[type(task)].update(1)
        /\ IF ~ok /\ ~cfg.cof
           THEN pc' = "closing" /\ exitk' = "LabError" /\ cur' = 0
           ELSE pc' = "remove" /\ UNCHANGED <<exitk, cur>>
+  /\ UNCHANGED <<tdigits, tcount, tname, subSeq>>
   /\ UNCHANGED <<ci, cfg, mode, pend, ddeps, ready, rmap, ftt, subq, uc, epend, running, fut, rq, deadS, batch,
                  wst, wres, view, cached, store, subCount, viaCache, inrun, runCount, loadCount, fin, died, dig,
                  reads, intCount, outKeys, outVals, hist, lg>>
@@ -360,6 +397,7 @@ RemoveResults ==          \* runner.remove_results(tasks_with_removable_results)
   /\ UNCHANGED <<ci, cfg, mode, pend, ddeps, pdeps, pdependents, active, ready, ftt, subq, uc, epend, running,
                  fut, rq, deadS, batch, wst, wres, view, cached, store, subCount, viaCache, inrun, runCount,
                  loadCount, fin, done, died, captured, dig, reads, intCount, outKeys, outVals, hist, lg>>
+  /\ UNCHANGED gvars
 
 (* ---- interrupts ---- *)
 
@@ -387,6 +425,7 @@ Interrupt ==              \* KeyboardInterrupt delivered to the calling thread a
   /\ UNCHANGED <<ci, cfg, pend, ddeps, pdeps, pdependents, active, ready, rmap, ftt, subq, uc, epend, fut, rq,
                  deadS, wres, view, cached, store, subCount, viaCache, runCount, loadCount, fin, done, died,
                  captured, dig, reads, outKeys, outVals, lg>>
+  /\ UNCHANGED gvars
 
 Cancel ==                 \* runner.cancel(): cancel everything not yet started
   /\ pc = "int1_cancel"
@@ -397,6 +436,7 @@ Cancel ==                 \* runner.cancel(): cancel everything not yet started
   /\ UNCHANGED <<ci, cfg, mode, pend, ddeps, pdeps, pdependents, active, ready, cur, removable, exitk, rmap, ftt,
                  uc, running, rq, deadS, batch, wst, wres, view, cached, store, subCount, viaCache, inrun,
                  runCount, loadCount, fin, done, died, captured, dig, reads, intCount, outKeys, outVals, hist, lg>>
+  /\ UNCHANGED gvars
 
 DrainCheck ==             \* while runner.pending_task_count() > 0: process_completed_tasks()
   /\ pc = "drain_check"
@@ -406,6 +446,7 @@ DrainCheck ==             \* while runner.pending_task_count() > 0: process_comp
                  uc, epend, running, fut, rq, deadS, batch, wst, wres, view, cached, store, subCount, viaCache,
                  inrun, runCount, loadCount, fin, done, died, captured, dig, reads, intCount, outKeys, outVals,
                  hist, lg>>
+  /\ UNCHANGED gvars
 
 Stop ==                   \* runner.stop(): terminate running processes, cancel their futures
   /\ pc = "int2_stop"
@@ -417,6 +458,7 @@ Stop ==                   \* runner.stop(): terminate running processes, cancel 
   /\ UNCHANGED <<ci, cfg, mode, pend, ddeps, pdeps, pdependents, active, ready, cur, removable, exitk, rmap, ftt,
                  subq, uc, epend, rq, deadS, batch, wres, view, cached, store, subCount, viaCache, runCount,
                  loadCount, fin, done, died, captured, dig, reads, intCount, outKeys, outVals, hist, lg>>
+  /\ UNCHANGED gvars
 
 Close ==                  \* finally: runner.close(); then return / re-raise; Lab.run_tasks builds the dict
   /\ pc = "closing"
@@ -425,6 +467,8 @@ Close ==                  \* finally: runner.close(); then return / re-raise; La
           /\ outKeys' = SelectSeq(Dedup(cfg.req), LAMBDA t : t \in captured)
           /\ outVals' = [i \in 1..Len(outKeys') |-> dig[outKeys'[i]]]
      ELSE pc' = "raised" /\ UNCHANGED <<outKeys, outVals>>
+  /\ pb' = IF Grow THEN [y \in DOMAIN pb |-> [pb[y] EXCEPT !.closed = pb[y].made]] ELSE pb     \* for pbar in pbars.values(): pbar.close()
+  /\ UNCHANGED <<tdigits, tcount, tname, subSeq>>
   /\ UNCHANGED <<ci, cfg, mode, pend, ddeps, pdeps, pdependents, active, ready, cur, removable, exitk, rmap, ftt,
                  subq, uc, epend, running, fut, rq, deadS, batch, wst, wres, view, cached, store, subCount,
                  viaCache, inrun, runCount, loadCount, fin, done, died, captured, dig, reads, intCount, hist, lg>>
@@ -452,6 +496,7 @@ WFinish(t) ==             \* run() or the load ends, the result is saved, the ou
   /\ UNCHANGED <<ci, cfg, pc, mode, pend, ddeps, pdeps, pdependents, active, ready, cur, removable, exitk, rmap,
                  ftt, subq, uc, epend, running, fut, deadS, batch, view, subCount, viaCache, runCount, loadCount,
                  done, died, captured, reads, intCount, outKeys, outVals>>
+  /\ UNCHANGED gvars
 
 WExit(t) ==               \* the process exits after having put its outcome
   /\ t \in Tasks /\ ObsPoint /\ wst[t] = "put" /\ t \in running
@@ -461,6 +506,7 @@ WExit(t) ==               \* the process exits after having put its outcome
                  ftt, subq, uc, epend, running, fut, rq, deadS, batch, wres, view, cached, store, subCount,
                  viaCache, inrun, runCount, loadCount, fin, done, died, captured, dig, reads, intCount, outKeys,
                  outVals, lg>>
+  /\ UNCHANGED gvars
 
 WDie(t) ==                \* the process is killed before it could report anything
   /\ AllowDie /\ t \in Tasks /\ ObsPoint /\ wst[t] = "run" /\ t \in running
@@ -472,6 +518,7 @@ WDie(t) ==                \* the process is killed before it could report anythi
   /\ UNCHANGED <<ci, cfg, pc, mode, pend, ddeps, pdeps, pdependents, active, ready, cur, removable, exitk, rmap,
                  ftt, subq, uc, epend, running, fut, rq, deadS, batch, wres, view, cached, store, subCount,
                  viaCache, runCount, loadCount, done, captured, dig, reads, intCount, outKeys, outVals, lg>>
+  /\ UNCHANGED gvars
 
 Worker == \E t \in Tasks : WFinish(t) \/ WExit(t) \/ WDie(t)
 Coordinator == Plan \/ LoopTop \/ Submit \/ WaitSample \/ WaitConsume \/ WaitDead \/ Iter \/ SerPop \/ SerRun
@@ -506,7 +553,13 @@ Abs == INSTANCE LabRunAbs WITH
   cacheVals <- [t \in Tasks |-> IF t \in cached THEN LoadVal(t) ELSE <<>>],    \* entries cached beforehand hold their epoch-0 value
   obsCache <- (pc \in {"returned", "raised"}),
   envok <- {},
-  marks <- {}, emitted <- lg.emit, delivered <- lg.del, obsLogs <- (Logs /\ pc \in {"returned", "raised"})
+  marks <- {}, emitted <- lg.emit, emitBy <- lg.emit, delivered <- lg.del, obsLogs <- (Logs /\ pc \in {"returned", "raised"}),
+  subSeq <- subSeq,
+  names <- [t \in Tasks |-> IF Grow /\ runCount[t] + loadCount[t] > 0
+                            THEN (IF "tnames" \in DOMAIN cfg THEN cfg.tnames[cfg.typ[t]] ELSE "T")
+                                 \o "[" \o ZFillL(ToString(tname[t]), tdigits[cfg.typ[t]]) \o "]"
+                            ELSE ""],
+  pbar <- pb
 
 A_C01_Keys == Abs!C01_Keys
 A_C01_Returns == Abs!C01_Returns
@@ -540,6 +593,12 @@ A_C17_Captured == Abs!C17_Captured
 A_C17_EmptyAtReturn == Abs!C17_EmptyAtReturn
 A_C17_OnlyNew == [][Abs!C17_OnlyNew_Step]_vars
 A_C19_ExactlyOnce == Abs!C19_ExactlyOnce
+A_C19_DeliveredBeforeRaise == Abs!C19_DeliveredBeforeRaise
+A_C19_NeverTwice == Abs!C19_NeverTwice
+A_G01_Names == Abs!G01_Names
+A_G02_Bars == Abs!G02_Bars
+A_G02_Count == Abs!G02_Count
+A_G02_Closed == Abs!G02_Closed
 
 (* ---- implementation-level bookkeeping invariants (not property verdicts) ---- *)
 I_Pdeps == \A t \in Tasks : pdeps[t] = {d \in ddeps[t] : done[d] = "none"}
